@@ -71,7 +71,7 @@ def run_case(ctx, g, rng):
                 if curie.find(d) == len(p):
                     if s2 != s1:
                         violation(["C06"], "idempotence", "standardize_curie-not-idempotent", curie=curie, first=s1, second=s2, **w)
-                    if repr(e1) != repr(e0):
+                    if probe.okey(e1) != probe.okey(e0):
                         violation(["C06"], "idempotence", "standardize_curie-changes-meaning", curie=curie, standard=s1, expand_before=e0, expand_after=e1, **w)
             probe.note_key(f"curie:{cls}:{'delim' if d in i else 'empty' if i == '' else 'id'}:{'colon' if d == ':' else 'other'}:pf{int(pf)}", cls not in ("unknown", "canonical"))
             S.counters["wl:curies"] += 1
@@ -85,7 +85,7 @@ def run_case(ctx, g, rng):
                     s2 = call(c.standardize_uri, s1[1])
                     if s2 != s1:
                         violation(["C06"], "idempotence", "standardize_uri-not-idempotent-on-prefix-free-map", uri=u, first=s1, second=s2, **w)
-                    if repr(call(c.compress, s1[1])) != repr(call(c.compress, u)):
+                    if probe.okey(call(c.compress, s1[1])) != probe.okey(call(c.compress, u)):
                         violation(["C06"], "idempotence", "standardize_uri-changes-compression-on-prefix-free-map", uri=u, standard=s1, **w)
                 nested = len(sp.uri_matches(u)) > 1
                 probe.note_key(f"uri:{'syn' if u0 != r.uri_prefix else 'canon'}:pf{int(pf)}:nested{int(nested)}:{'empty' if i == '' else 'id'}:{how == 'asked-while-growing'}", u0 != r.uri_prefix or nested)
